@@ -1,6 +1,7 @@
 package main
 
 import (
+	"go/types"
 	"fmt"
 
 	"golang.org/x/tools/go/ssa"
@@ -65,6 +66,11 @@ func runC12(c *Ctx) {
 						if ToPoly(lo).Equal(ToPoly(lenA)) && e.Args[1].Key() == b.Key() && d.Args[2].Op == "none" {
 							gotB = true
 						}
+						// n := copy(result, a) - with len(result) = len(a)+len(b) >= len(a), n is len(a)
+						if lo.Op == "call" && lo.Sym == "builtin.copy" && len(lo.Args) == 2 && lo.Args[0].Key() == res.Key() && lo.Args[1].Key() == a.Key() &&
+							e.Args[1].Key() == b.Key() && d.Args[2].Op == "none" && ToPoly(res.Args[0]).Equal(ToPoly(lenA).Add(ToPoly(lenB), 1)) {
+							gotB = true
+						}
 					}
 					if d.Key() == res.Key() && e.Args[1].Key() == a.Key() {
 						gotA = true
@@ -86,6 +92,10 @@ func runC12(c *Ctx) {
 			s := paramOf(fi, 0)
 			ok, why := true, ""
 			for _, p := range ps {
+				if r := p.Rets[0]; len(p.Rets) == 1 && r.Op == "builtin" && r.Sym == "append" && len(r.Args) == 2 && r.Args[0].Op == "mkslice" &&
+					r.Args[0].Args[0].IsConst("0") && len(r.Args[0].Args) > 1 && isLenOf(r.Args[0].Args[1], s) && r.Args[1].Key() == s.Key() {
+					continue // append(make(S, 0, len(slice)), slice...): fresh, same length and capacity
+				}
 				if len(p.Rets) != 1 || p.Rets[0].Op != "mkslice" || !isLenOf(p.Rets[0].Args[0], s) {
 					ok, why = false, fmt.Sprintf("a path returns %s, not make(S, len(slice))", p.Rets[0])
 					continue
@@ -163,6 +173,37 @@ func runC12(c *Ctx) {
 							ok, why = false, "a path avoids the loop without the slice being empty"
 						}
 						continue
+					}
+					// a path that knows the slice to be empty has nothing to fill (the loop test fails at once)
+					{
+						lenS := &Term{Op: "builtin", Sym: "len", Args: []*Term{s}}
+						empty := false
+						for _, cd := range p.Conds {
+							if pl, kind, isInt := cd.Rel().IntNorm(); isInt {
+								if kind == "=" && pl.Equal(canonSign(ToPoly(lenS))) {
+									empty = true
+								}
+								if kind == ">" && pl.Equal(polyConst(1).Add(ToPoly(lenS), -1)) {
+									empty = true
+								}
+							}
+						}
+						if empty && p.End != EndLoopBack && len(eventsOf(p, func(e *Event) bool { return e.Kind == "store" || (e.Kind == "call" && e.Name == "builtin.copy") })) == 0 {
+							continue
+						}
+						// an iteration on an empty slice is infeasible: the prefix length starts at 1 and only grows,
+						// and the iteration needs prefix < len <= 0
+						if empty && p.End == EndLoopBack && init != nil && init.IsConst("1") {
+							infeasible := false
+							for _, cd := range p.Conds {
+								if pl, kind, isInt := cd.Rel().IntNorm(); isInt && kind == ">" && pl.Equal(ToPoly(lenS).Add(ToPoly(lv), -1)) {
+									infeasible = true
+								}
+							}
+							if infeasible {
+								continue
+							}
+						}
 					}
 					// element 0 written before the loop
 					first := false
@@ -346,6 +387,45 @@ func c12Splice(c *Ctx, rule string, withMulti bool) {
 		}
 		ptr, index, val := paramOf(fi, 0), paramOf(fi, 1), paramOf(fi, 2)
 		ok, why := len(ps) == 1, "the function branches (a path that skips the growth or the shift must be justified separately)"
+		// the single-element form as a call of the slice form with a one-element slice holding the value
+		if ok && !ins.multi {
+			p := ps[0]
+			calls := callsNamed(p, "slices.InsertSlice")
+			if len(calls) == 1 && len(calls[0].Args) == 3 && calls[0].Args[0].Key() == ptr.Key() && calls[0].Args[1].Key() == index.Key() {
+				arr := calls[0].Args[2]
+				for arr != nil && arr.Op == "slice" {
+					arr = arr.Args[0]
+				}
+				holds, others := 0, 0
+				for i := range p.Events {
+					e := &p.Events[i]
+					switch {
+					case e.Kind == "store" && e.Addr.Op == "iaddr" && arr != nil && e.Addr.Args[0].Key() == arr.Key():
+						if e.Val.Key() == val.Key() && e.Addr.Args[1].IsConst("0") {
+							holds++
+						} else {
+							holds = -99
+						}
+					case e.Kind == "store" && e.Addr.Op == "alloc":
+					case e.Kind == "call" && e == calls[0]:
+					default:
+						others++
+					}
+				}
+				oneElem := false
+				if arr != nil && arr.Op == "alloc" {
+					if pt, isP := arr.Typ.Underlying().(*types.Pointer); isP {
+						if at, isA := pt.Elem().Underlying().(*types.Array); isA && at.Len() == 1 {
+							oneElem = true
+						}
+					}
+				}
+				if holds == 1 && others == 0 && oneElem {
+					R.Held(rule, fi.Name, "splice", c.pos(fi), "InsertSlice(slice, index, {value}): the slice form with one element (decided as slices.InsertSlice)")
+					continue
+				}
+			}
+		}
 		if ok {
 			p := ps[0]
 			var grown *Term
@@ -460,6 +540,14 @@ func c12Splice(c *Ctx, rule string, withMulti bool) {
 			r = ToPoly(paramOf(fi, 2))
 		}
 		ok, why := len(ps) == 1, "the function branches"
+		if ok && !rm.multi {
+			p := ps[0]
+			calls := callsNamed(p, "slices.RemoveSlice")
+			if len(calls) == 1 && len(p.Events) == 1 && len(calls[0].Args) == 3 && calls[0].Args[0].Key() == ptr.Key() && calls[0].Args[1].Key() == index.Key() && calls[0].Args[2].IsConst("1") {
+				R.Held(rule, fi.Name, "splice", c.pos(fi), "RemoveSlice(slice, index, 1): the slice form with length one (decided as slices.RemoveSlice)")
+				continue
+			}
+		}
 		if ok {
 			p := ps[0]
 			var cp, st *Event
